@@ -816,8 +816,124 @@ def digest(method):
 
 
 def ed_verify(I, a, fr, d):
-    raise Unmodelled("ed25519 verify (bind a harness override)")
+    return foreign_call(I, "ed_verify", a, fr, d)
+
+
+# ---- uninterpreted models of the secp256k1 / ed25519-dalek wrappers -------------------------------------------------
+# Every call is logged in I.crypto_log.  Wrapper model (stated assumptions):
+#   A1  recover_ecdsa(m, sign_ecdsa_recoverable(m, sk)) = Ok(pub(sk));  serialize_compact / from_compact are inverse
+#   A2  RecoveryId::try_from(i) = Ok  <=>  0 <= i <= 3
+#   from_compact / VerifyingKey::from_bytes / recover / verify on other inputs may succeed or fail (both explored)
+def _log(I, *rec):
+    log = getattr(I, "crypto_log", None)
+    if log is not None: log.append(rec)
+
+
+def _bytes_of(v):
+    st = S()
+    return [c.v for c in st.as_slice(deref(v)).cells()]
+
+
+def _fresh_bytes(I, tag, n):
+    k = getattr(I, "_fresh_ctr", 0); I._fresh_ctr = k + 1
+    return [I.E.sym_int(f"{tag}{k}_{i}", "u8") for i in range(n)]
+
+
+def _same_terms(a, b):
+    return len(a) == len(b) and all((x.concrete and y.concrete and x.v == y.v) or (not x.concrete and not y.concrete and x.v.eq(y.v)) for x, y in zip(a, b))
+
+
+def foreign_call(I, name, a, fr, d):
+    st = S()
+    E = I.E
+    if name == "msg_from_digest":
+        return Opaque("Message", _bytes_of(a[0]))
+    if name == "secp_ctx":
+        return Opaque("Secp256k1")
+    if name == "rid_try_from":
+        i = a[0]
+        okc = b_and(int_binop("Ge", i, Int(i.ty, 0)), int_binop("Le", i, Int(i.ty, 3)))
+        _log(I, "rid_try_from", i)
+        if E.branch(okc, "rid"): return st.ok(I, Opaque("RecoveryId", i))
+        return st.err(I, Opaque("secp256k1::Error", "InvalidRecoveryId"))
+    if name == "rid_to_i32":
+        return deref(a[0]).payload
+    if name == "sign_recoverable":
+        msg, sk = deref(a[1]), deref(a[2])
+        sig = Opaque("RecSig", dict(kind="sign", msg=msg.payload, sk=sk, bytes=_fresh_bytes(I, "sigb", 64), rid=E.sym_int(f"rid{getattr(I, '_fresh_ctr', 0)}", "i32")))
+        E.assume(b_and(int_binop("Ge", sig.payload["rid"], Int("i32", 0)), int_binop("Le", sig.payload["rid"], Int("i32", 3))))
+        I.signed = getattr(I, "signed", []) + [sig]
+        _log(I, "sign", msg.payload, sk)
+        return sig
+    if name == "serialize_compact":
+        s = deref(a[0]).payload
+        return Agg(None, [Cell(Opaque("RecoveryId", s["rid"])), Cell(Seq([Cell(b) for b in s["bytes"]], "array"))])
+    if name == "recsig_from_compact":
+        bs, rid = _bytes_of(a[0]), deref(a[1]).payload
+        _log(I, "from_compact", bs, rid)
+        for s in getattr(I, "signed", []):
+            if _same_terms(s.payload["bytes"], bs):
+                # same recovery id on every model of this path? (u8 <-> i32 conversions change the term, not the value)
+                differs = b_not(int_binop("Eq", int_cast(rid, "i64") if rid.ty != "i64" else rid, int_cast(s.payload["rid"], "i64")))
+                if not E.is_sat(differs):
+                    return st.ok(I, s)                                  # inverse of serialize_compact (A1)
+        if E.choose(2, "from_compact_ok"):
+            return st.ok(I, Opaque("RecSig", dict(kind="parsed", bytes=bs, rid=rid)))
+        return st.err(I, Opaque("secp256k1::Error", "InvalidSignature"))
+    if name == "sig_from_compact":
+        bs = _bytes_of(a[0])
+        _log(I, "sig_from_compact", bs)
+        if E.choose(2, "sig_from_compact_ok"): return st.ok(I, Opaque("CompactSig", bs))
+        return st.err(I, Opaque("secp256k1::Error", "InvalidSignature"))
+    if name == "recover":
+        msg, sig = deref(a[1]), deref(a[2])
+        _log(I, "recover", msg.payload, sig.payload)
+        p = sig.payload
+        if p.get("kind") == "sign" and _same_terms(p["msg"], msg.payload):
+            return st.ok(I, Opaque("PublicKey", dict(of=p["sk"])))      # A1
+        if E.choose(2, "recover_ok"):
+            return st.ok(I, Opaque("PublicKey", dict(of=None, bytes=_fresh_bytes(I, "pkb", 33))))
+        return st.err(I, Opaque("secp256k1::Error", "InvalidSignature"))
+    if name == "verify_ecdsa":
+        _log(I, "verify_ecdsa", deref(a[1]).payload, deref(a[2]).payload, deref(a[3]))
+        if E.choose(2, "verify_ok"): return st.ok(I, unit())
+        return st.err(I, Opaque("secp256k1::Error", "IncorrectSignature"))
+    if name == "pk_serialize":
+        pk = deref(a[0])
+        if "bytes" not in pk.payload: pk.payload["bytes"] = _fresh_bytes(I, "pkb", 33)
+        return Seq([Cell(b) for b in pk.payload["bytes"]], "array")
+    if name == "vk_from_bytes":
+        bs = _bytes_of(a[0])
+        _log(I, "vk_from_bytes", bs)
+        if E.choose(2, "vk_ok"): return st.ok(I, Opaque("VerifyingKey", bs))
+        return st.err(I, Opaque("ed25519::Error", "key"))
+    if name == "edsig_from_bytes":
+        return Opaque("EdSignature", _bytes_of(a[0]))
+    if name == "ed_verify":
+        vk, data, sig = deref(a[0]), _bytes_of(a[1]), deref(a[2])
+        _log(I, "ed_verify", vk.payload, data, sig.payload)
+        if E.choose(2, "ed_ok"): return st.ok(I, unit())
+        return st.err(I, Opaque("ed25519::Error", "verify"))
+    return NotImplemented
+
+
+FOREIGN = [
+    (r"Message::from_digest$", "msg_from_digest"),
+    (r"Secp256k1<\w+>>::(new|verification_only)$|alloc_only::(new|verification_only)$|Secp256k1::(new|verification_only)", "secp_ctx"),
+    (r"RecoverableSignature::serialize_compact$", "serialize_compact"),
+    (r"RecoverableSignature::from_compact$", "recsig_from_compact"),
+    (r"ecdsa::Signature::from_compact$", "sig_from_compact"),
+    (r"sign_ecdsa_recoverable$", "sign_recoverable"),
+    (r"recover_ecdsa$", "recover"),
+    (r"verify_ecdsa$", "verify_ecdsa"),
+    (r"PublicKey::serialize$", "pk_serialize"),
+    (r"VerifyingKey::from_bytes$", "vk_from_bytes"),
+    (r"Signature::from_bytes$", "edsig_from_bytes"),
+]
 
 
 def foreign(plain, head, last, c):
+    for rx, nm in FOREIGN:
+        if re.search(rx, plain) or re.search(rx, c):
+            return (lambda I, a, fr, d, _n=nm: foreign_call(I, _n, a, fr, d))
     return NotImplemented
